@@ -187,7 +187,8 @@ def gen_random_case(rng, nops, conts):
             for i in range(min(c["kdom"], 16)):
                 ops.append([ci, "get", key_of(c, i), 77 if c["v"] != "bool" else 0])
             ops.append([ci, "height"])
-            ops.append([ci, "clear"])      # avoidance of C19-map-destructor-not-run: no Map is left non-empty
+            if rng.random() < 0.3:         # most Maps are left non-empty: ~self() must free every node
+                ops.append([ci, "clear"])
         elif c["kind"] == "vec":
             for i in range(min(approx[ci] + 1, 12)):
                 ops.append([ci, "at", i])
@@ -239,7 +240,7 @@ def gen_cases(seed, tier):
         if k % 2:
             rmo = sorted(rmo)
         ops += [[0, "try_remove", x] for x in rmo[: n - 3]] + [[0, "height"]]
-        ops = ops[:199] + [[0, "clear"]]
+        ops = ops[:200]                    # the Map is left non-empty: ~self() frees the remaining nodes
         out.append(("map-monotone", {"conts": [c], "ops": ops, "reps": 1}))
     # (4) single vector / queue histories
     for k in range(90 if q else 2000):
@@ -640,14 +641,9 @@ def prune_conts(case):
 
 
 def avoid_normalise(case):
-    """Keep a shrunk candidate inside the generator's avoidance predicates: every Map ends cleared."""
-    ops = list(case["ops"])
-    for ci, c in enumerate(case["conts"]):
-        if c["kind"] == "map":
-            mine = [o for o in ops if o[0] == ci]
-            if mine and mine[-1][1] != "clear":
-                ops.append([ci, "clear"])
-    return dict(case, ops=ops)
+    """Keep a shrunk candidate inside the generator's avoidance predicates (none concern the shape of
+    the operation list any more since 426a76f: Maps may be left non-empty)."""
+    return case
 
 
 def shrink(impl_dir, case, with_shim, budget=120):
